@@ -321,7 +321,33 @@ def gen_program(rng, mode="omp"):
     loops = [gen_loop(rng, cfg, [], 1, 3)]
     if rng.random() < 0.3:
         loops.append(gen_loop(rng, cfg, [], 1, 2))
+    perfect3 = mode == "omp" and rng.random() < 0.07
+    if perfect3:
+        # a perfectly nested three-deep loop whose dependence, if any, sits
+        # on one particular level (collapse(3) must look at all three)
+        level = pick(rng, [0, 1, 2, 2, None])
+        arr, src = pick(rng, REAL_ARRAYS2), pick(rng, REAL_ARRAYS2)
+        subs = {0: [ref("j"), ref("l")], 1: [ref("i"), ref("l")],
+                2: [ref("i"), ref("j")], None: [ref("i"), ref("j")]}[level]
+        rhs = binop("+", aref(arr, subs) if level is not None
+                    else aref(src, [ref("j"), ref("i")]),
+                    aref(pick(rng, REAL_ARRAYS), [ref("l")]))
+        body = {"k": "assign", "lhs": aref(arr, subs), "rhs": rhs}
+        if level is None:
+            body["lhs"] = aref(arr, [ref("i"), ref("j")])
+            body = [body, {"k": "assign",
+                           "lhs": aref(pick(rng, REAL_ARRAYS), [ref("l")]),
+                           "rhs": lit("1.0", "real")}][:1]
+        else:
+            body = [body]
+
+        def lp(var, inner):
+            return {"k": "do", "var": var, "lo": lit(1), "hi": ref("n"),
+                    "step": 1, "body": inner}
+        loops = [lp("i", [lp("j", [lp("l", body)])])]
     prog = {"name": "sub", "n_max": 8, "body": prefix + loops}
+    if perfect3:
+        prog["perfect3"] = True
     if dnames:
         prog["dnames"] = True
     return prog
